@@ -27,11 +27,13 @@ RULE = ("case = (method class, constraint set, speculative, split, first request
 ASSUMPTIONS = ["points of the pool are identical or separated by much more than the plug-in's allclose tolerance", "the scripted algorithm calls the callables the way SciPy does (1-D points; (V,S) batches for vectorized DE)"]
 EXHAUSTIVE = {"quick": True, "thorough": True}
 BOUNDS = {"quick": {"script_length": 3}, "thorough": {"script_length": 4}}
-REQUIRED = {"quick": {"scripts": 20000, "values_compared": 60000, "epochs_checked": 40000, "speculative_pairs_compared": 5000, "constraint_first_at_new_point": 3000, "gradient_first_at_new_point": 3000, "batch_requests": 1000, "real_method_runs": 36, "__nontrivial__": 150},
-            "thorough": {"scripts": 600000, "values_compared": 2000000, "epochs_checked": 1500000, "speculative_pairs_compared": 150000, "constraint_first_at_new_point": 100000, "gradient_first_at_new_point": 100000, "batch_requests": 30000, "real_method_runs": 600, "__nontrivial__": 1500}}
+REQUIRED = {"quick": {"scripts": 20000, "values_compared": 60000, "epochs_checked": 40000, "speculative_pairs_compared": 5000, "constraint_first_at_new_point": 3000, "gradient_first_at_new_point": 3000, "batch_requests": 1000, "batch_requests_in_reused_buffer": 600, "scripts_with_reused_point_array": 10000, "scripts_over_close_points_with_tolerance_option": 600, "real_method_runs": 36, "__nontrivial__": 150},
+            "thorough": {"scripts": 600000, "values_compared": 2000000, "epochs_checked": 1500000, "speculative_pairs_compared": 150000, "constraint_first_at_new_point": 100000, "gradient_first_at_new_point": 100000, "batch_requests": 30000, "batch_requests_in_reused_buffer": 20000, "scripts_with_reused_point_array": 300000, "scripts_over_close_points_with_tolerance_option": 15000, "real_method_runs": 600, "__nontrivial__": 1500}}
 
 V = 2
-POOL = np.array([[0.1, -0.2], [0.35, 0.15], [-0.3, 0.4]])
+FAR_POOL = np.array([[0.1, -0.2], [0.35, 0.15], [-0.3, 0.4]])
+CLOSE_POOL = np.array([[0.35, 0.15], [0.35 * 1.04, 0.15 * 1.04], [0.35 * 0.97, 0.15 * 0.97]])   # far beyond rtol 1e-5, within a loose `tolerance`
+POOL = FAR_POOL
 MAG = 0.01
 CLASSES = {
     "slsqp": {"method": "slsqp", "grad": True, "cons": ["none", "nl", "lin", "both"]},
@@ -166,7 +168,7 @@ def _play(obs, cls, spec, script, reqs, record_only=False):
     from ropt.ensemble_evaluator import EnsembleEvaluator  # noqa: PLC0415
     from ropt.optimization import EnsembleOptimizer  # noqa: PLC0415
 
-    key = repr(sorted(spec["optimizer"].items())) + repr(spec.get("linear")) + repr(spec["n_con"])
+    key = repr(sorted(spec["optimizer"].items())) + repr(spec.get("linear")) + repr(spec["n_con"]) + repr(spec["x0"])
     if key not in _CFG_CACHE:
         _CFG_CACHE[key] = (ens.make_config(spec), Reference(spec))
     cfg, ref = _CFG_CACHE[key]
@@ -301,16 +303,35 @@ def run_case(case, obs):
         cls = list(CLASSES)[int(rng.integers(len(CLASSES)))]
         cons = CLASSES[cls]["cons"][int(rng.integers(len(CLASSES[cls]["cons"])))]
         speculative, split = bool(rng.random() < 0.5), bool(rng.random() < 0.5)
-        spec = _spec(cls, cons, speculative, split)
-        reqs = [(k, p) for k in _alphabet(cls, spec) for p in range(3)]
-        scripts = [[int(x) for x in rng.integers(len(reqs), size=int(rng.integers(5, 9)))] for _ in range(40)]
+        tol = None
+        if rng.random() < 0.5:
+            # a loose convergence tolerance and points a few percent apart: still different points
+            global POOL  # noqa: PLW0603
+            tol = float(rng.choice([1e-8, 1e-3, 0.05, 0.3]))
+            POOL = CLOSE_POOL
+            obs.count("scripts_over_close_points_with_tolerance_option", 40)
+        try:
+            spec = _spec(cls, cons, speculative, split)
+            if tol is not None:
+                spec["optimizer"]["tolerance"] = tol
+            reqs = [(k, p) for k in _alphabet(cls, spec) for p in range(3)]
+            scripts = [[int(x) for x in rng.integers(len(reqs), size=int(rng.integers(5, 9)))] for _ in range(40)]
+            return _run_scripts(case, obs, cls, cons, speculative, split, spec, reqs, scripts, tol)
+        finally:
+            POOL = FAR_POOL
     else:
         cls, cons, speculative, split, L = case["cls"], case["cons"], case["speculative"], case["split"], case["L"]
         spec = _spec(cls, cons, speculative, split)
         reqs = [(k, p) for k in _alphabet(cls, spec) for p in range(3)]
         pre = case["prefix"]
         scripts = ([*pre, *rest] for rest in itertools.product(range(len(reqs)), repeat=L - len(pre)))
+    return _run_scripts(case, obs, cls, cons, speculative, split, spec, reqs, scripts, None)
+
+
+def _run_scripts(case, obs, cls, cons, speculative, split, spec, reqs, scripts, tol):
     other = _spec(cls, cons, not speculative, split)
+    if tol is not None:
+        other["optimizer"]["tolerance"] = tol
     nontrivial = False
     for script in scripts:
         obs.count("scripts")
